@@ -10,7 +10,7 @@ from rv import graphlib as GL
 
 PROJECTS = ["a", "b", "c", "d", "e"]
 SPELL = {"a": ["a", "A"], "b": ["b", "B"], "c": ["c", "C"], "d": ["d", "D"], "e": ["e", "E"],
-         "f-g": ["f-g", "F_G", "f.g"]}
+         "f-g": ["f-g", "F_G", "f.g"], "h.i": ["h.i", "H-I", "h_i"]}
 SHAPES = ["dag-free", "dag-free", "dag-conflict", "dag-conflict", "cyclic", "self", "extras", "extras", "abandon", "late-extra-cycle", "umbrella-extra"]
 
 
@@ -29,7 +29,7 @@ def gen_template(rng, shape):
     abandon          - a walk-back throws an intermediate distribution out while its dependencies are still being iterated,
                        and a survivor requires one of those dependencies too;
     late-extra-cycle - a project is asked for an extra by something that sits below it in the walk (a cycle through an extra)"""
-    names = list(PROJECTS + ["f-g"])
+    names = list(PROJECTS + [rng.choice(["f-g", "f-g", "h.i"])])
     rng.shuffle(names)
     lo, hi = sorted(rng.sample(GL.VERS, 2), key=GL.V)
     v = lambda: rng.choice(GL.VERS)
@@ -59,6 +59,9 @@ def gen_universe(rng, shape):
     if shape in ("abandon", "late-extra-cycle", "umbrella-extra"):
         return gen_template(rng, shape)
     names = (PROJECTS + ["f-g"])[: rng.randint(2, 6)]
+    if rng.random() < 0.3:
+        # a project whose canonical name has a separator in it (zope.interface, ruamel.yaml ...) anywhere in the order
+        names[rng.randrange(len(names))] = "h.i" if "f-g" in names or rng.random() < 0.6 else "f-g"
     extras_p = 0.35 if shape == "extras" else (0.12 if shape in ("cyclic", "self") else 0.1)
     conflict_p = 0.0 if shape == "dag-free" else 0.3
     U = {}
@@ -490,10 +493,16 @@ def oracle_c08(run):
             for m in RequirementContainer("x", qs).requires(ex):
                 if GL.norm(m.name) == k:
                     exp.add(render_entry(names.get(label, label), m))
-        if case_split(exp_edges):
-            reg = "edge-label-overwritten"
-        else:
-            reg = region
+        # D3 reaches an annotation through the extras *of the requirer* (`node.extras` is read off the labels of the edges
+        # into the requirer): the region is "some requirer of this pin is itself required twice, under different extras,
+        # by one of its own requirers" - not "this pin is required twice by one requirer", which build_explanation handles
+        # (it reads the requirer's declared requirements, not the edge label)
+        upstream = False
+        for lab in {label for label, _, _ in exp_edges}:
+            rk = GL.norm(lab)
+            if rk in S.emitted and case_split(expected_explanations(S, rk)):
+                upstream = True
+        reg = "edge-label-overwritten" if upstream else region
         if set(got) != exp:
             if reg == "clean" and _has_stale_extra(run):
                 reg = "stale-extra-edge"
